@@ -1,7 +1,8 @@
 from _common import COMMON_NOTE
 
 META = {'title': 'Fast tape loading leaves the machine exactly as the ROM loader would',
- 'lean_modules': ['ZxVerif.Props.C10'],
+ 'lean_modules': ['ZxVerif.Props.C10', 'ZxVerif.Props.C11X'],
+ 'extract': ['TapeConsts'],
  'modelled_code': ['rustzx-core/src/emulator/fastload/tap.rs (fast_load_tap)',
                    'rustzx-core/src/zx/tape/tap.rs (Tap: next_block, next_block_byte, 128-byte buffer, rewind)',
                    'rustzx-core/src/zx/tape/mod.rs (TapeImpl)',
